@@ -1001,10 +1001,13 @@ private:
 
         value_node_ptr new_node = create_insert_node(order_key);
         node_ptr curr = search_result.first;
+        // The node may have been move-constructed from value: from here on compare with the key stored
+        // in the node, the key in value can be in a moved-from state
+        const key_type& new_key = traits_type::get_key(new_node->value());
 
         while (!try_insert(prev, new_node, curr)) {
             __TBB_VERIF_POINT(vp_cu_cas_failed, this, 0);
-            search_result = search_after(prev, order_key, key);
+            search_result = search_after(prev, order_key, new_key);
             if (search_result.second) {
                 return internal_insert_return_type{ new_node, search_result.first, false };
             }
